@@ -87,6 +87,18 @@ CHECKS['C01'] = dict(
         'functions are not proved to refine the abstract steps); zlib as an oracle (unz (zc p) = Some p); one client session; Coq kernel; translator; extraction; gcc.',
    technique='Coq proof (inductive invariant over an adversarial-network transition system, both directions) + refutation witness outside the hypothesis; whole-system differential correspondence and integrity oracle',
    design='4/C01')
+CHECKS['C10'] = dict(
+   text='Coq theorems for every legal label list, id, type and payload up to 4098 bytes: the query datagram (with or without EDNS0) and the '
+        'answer datagram write_dns builds for NULL/PRIVATE/TXT/CNAME/A/MX/SRV, and the NS / A auxiliary answers, are accepted by an independent strict '
+        'RFC 1035 parser written in Gallina (exact section counts, backward compression pointers to label starts only, labels <= 63, names <= 255, '
+        'exact RDLENGTH and per-type RDATA shape, TXT strings tile RDATA) with the expected id, question, owner names and record types. The '
+        'encoder model is tied to dns.c/iodined.c by byte-equality correspondence on the datagrams the real code emits; the strict parser is tied '
+        'to an independent Python parser on malformed/well-formed corpora and mutants of real datagrams.',
+   note='Trusts: the strict parser as the reading of RFC 1035 (two independent implementations agree); the root question name and tunnel domains '
+        'over 252 wire bytes are outside the theorems (proved not well-formed, unreachable in the server); byte-ness of non-TXT RDATA rests on the '
+        'correspondence; Coq kernel; translator; extraction; gcc.',
+   technique='Coq proof (encoder output accepted by a strict Gallina RFC 1035 parser, for all names/payloads), differential correspondence, second independent parser',
+   design='4/C10')
 NOT_YET = {}
 
 def main():
